@@ -19,4 +19,16 @@ CHECKS["C11"] = {
   "note": "exact reals; sklearn validators stubbed by aliasing contract; atol>0; symbolic weights parametrised with fixed total (1 or 3)",
   "technique": TECH,
 }
+CHECKS["C12"] = {
+  "text": "KernelNormalizer and SparseKernelCenterer (fit / transform / fit_transform, sklearn KernelCenterer.fit underneath) are executed on kernels built in the harness from explicit symbolic feature matrices; on every path the transformed train/test kernels are compared (normal-form zero test, solver otherwise) with the Gram matrices of features centred by the weighted training mean and divided by the common scale; trace n, vanishing weighted column means, centred Nystrom trace n, flag semantics, fit_transform and two-step refit histories are decided. Bounded: n<=4, d<=2, active set <=2.",
+  "design_ref": "DESIGN.md 2/C12",
+  "note": "exact reals; pinv(Kmm) by closed form for invertible Kmm; zero trace / singular Kmm end the path",
+  "technique": TECH,
+}
+CHECKS["C20"] = {
+  "text": "local_prediction_rigidity and componentwise_prediction_rigidity are executed on symbolic lists of structures; every returned value is compared by cross-multiplied polynomial identity with the independently written closed form 1/(x (B + alpha s^2 I)^-1 x^T) (block-restricted / structure mean for LCPR / CPR), plus splitting per structure, rank_diff, invariance under a common symbolic rescaling, monotonicity in alpha (two symbols), LCPR(single component)==LPR, CPR(one environment)==LCPR, positivity (d=1). Bounded: d<=2 (3 thorough), <=3 structures.",
+  "design_ref": "DESIGN.md 2/C20",
+  "note": "exact reals; pinv/matrix_rank by closed forms with determinants named as atoms (abstraction by naming, unfolded for equalities); strict positivity decided only for d=1",
+  "technique": TECH,
+}
 NOT_APPLICABLE = {}
